@@ -15,7 +15,7 @@ if [ ! -d "$WT" ]; then git -C /repo worktree add -q --detach "$WT" HEAD || exit
 git -C "$WT" checkout -q --detach "$(git -C /repo rev-parse HEAD)" && git -C "$WT" checkout -q -- . && git -C "$WT" clean -fdq -e target
 place=$(head -1 "$DEMO" | sed -n 's|^// place at: *||p' | tr -d '\r ')
 crate=${place%%/*}
-feat=$(head -4 "$DEMO" | grep -o -- '--features [a-z,_-]*' | head -1)
+feat=$(head -12 "$DEMO" | grep -o -- '--features [a-z,_-]*' | head -1)
 res_suite=skip; res_demo_with=skip; res_demo_without=skip
 if git -C "$WT" apply --check "$DIFF" 2>/dev/null; then
   # demo without the change
